@@ -126,14 +126,16 @@ theorem check_good (f ch sr : Int) (hi : Internal f) (h : check f ch sr = true)
 def KF.rateZero (f sr : Int) : Prop := sr = 0 ∧ ¬ rateRepaired f
 -- KF-C10-alac8 (DESIGN §8 #25, CAF/ALAC with more than 8 channels) is fixed in /repo by 0aa127c + e9742d9:
 -- it is no longer an excluded class; `alac_over8_rejected` below is the regression statement.
-/-- KF-C10-vox-odd (DESIGN §8 #3): OKI/VOX reports an odd item count rounded up -/
-def KF.voxOdd (f n : Int) : Prop := container f = RAW ∧ codec f = VOX_ADPCM ∧ n % 2 = 1
+-- KF-C10-vox-odd (DESIGN §8 #3, OKI/VOX reported an odd item count rounded up) is fixed in the library (vox_adpcm.c
+-- holds the odd sample of a call): it is no longer an excluded class; `KF.voxOddOld` is the class it had and
+-- `vox_odd_write_old_rule` below the regression statement.
+def KF.voxOddOld (f n : Int) : Prop := container f = RAW ∧ codec f = VOX_ADPCM ∧ n % 2 = 1
 /-- KF-C10-ircam-rate (DESIGN §8 #21, repaired): IRCAM keeps the rate as float32; ≥ 2^31 − 64 came back as a negative
     int before ircam_write_header capped the float -/
 def KF.ircamRate (f sr : Int) : Prop := ircamRateLostOld f sr = true
 
 instance (f sr : Int) : Decidable (KF.rateZero f sr) := by unfold KF.rateZero; infer_instance
-instance (f n : Int) : Decidable (KF.voxOdd f n) := by unfold KF.voxOdd; infer_instance
+instance (f n : Int) : Decidable (KF.voxOddOld f n) := by unfold KF.voxOddOld; infer_instance
 instance (f sr : Int) : Decidable (KF.ircamRate f sr) := by unfold KF.ircamRate; infer_instance
 
 /-! ## check ⇔ sf_open (write) hands out a working handle -/
@@ -256,7 +258,7 @@ theorem roundTrips_opened (f ch sr n : Int) (h : roundTrips f ch sr n = true) : 
   · unfold roundTrips outcome at h; simp [ho] at h
 
 theorem C10_partial (f ch sr n : Int) (he : Enumerated f) (hn : 0 < n)
-    (k1 : ¬ KF.rateZero f sr) (k3 : ¬ KF.voxOdd f n) :
+    (k1 : ¬ KF.rateZero f sr) :
     check f ch sr = true ↔ roundTrips f ch sr n = true := by
   constructor
   · intro h
@@ -272,11 +274,7 @@ theorem C10_partial (f ch sr n : Int) (he : Enumerated f) (hn : 0 < n)
     simp at ha
     have hw : writeRet f ch sr n = n := by
       unfold writeRet
-      simp only [ha.2]
-      by_cases hv : container f = RAW ∧ codec f = VOX_ADPCM
-      · have : ¬ n % 2 = 1 := fun h1 => k3 ⟨hv.1, hv.2, h1⟩
-        simp [hv]; omega
-      · simp [hv]
+      simp [ha.2]
     have h4 : ircamRateLost f sr = false := rfl
     have hre := container_rebuilt f _ (reopenEndian_cases f _ ge)
     unfold roundTrips outcome reopen tmpLeft sameEncoding
@@ -289,18 +287,30 @@ theorem C10_partial (f ch sr n : Int) (he : Enumerated f) (hn : 0 < n)
 /-- non-vacuity of `C10_partial`: its hypotheses hold on ordinary points, both sides occur -/
 example :
     ∃ m ∈ majorWords, ∃ s ∈ subtypeWords, Enumerated (m + s) ∧ ¬ KF.rateZero (m + s) 8000
-      ∧ ¬ KF.voxOdd (m + s) 3
       ∧ roundTrips (m + s) 1 8000 3 = true ∧ roundTrips (m + s) 1025 8000 3 = false := by decide
 
-/-- every excluded point with check TRUE really fails (the excluded region is not wider than the defects);
-    the rate-0 class is covered by `check_iff_writable_fails` and the exhaustive grid -/
-theorem kf_exact (f ch sr n : Int) (hn : 0 < n) (h : check f ch sr = true)
-    (hk : KF.voxOdd f n) : roundTrips f ch sr n = false := by
-  obtain ⟨h1, h2, h3⟩ := hk
-  unfold roundTrips outcome writeRet
-  by_cases hi : installed f ch sr = true
-  · simp [hi, h1, h2]; intro _ hw; omega
-  · simp [hi]; intro _ hw; omega
+/-- the former class KF-C10-vox-odd is inside the theorem now: RAW / VOX_ADPCM with an odd number of frames per write -/
+example : Enumerated (RAW + VOX_ADPCM) ∧ KF.voxOddOld (RAW + VOX_ADPCM) 3 ∧ ¬ KF.rateZero (RAW + VOX_ADPCM) 8000 ∧
+    check (RAW + VOX_ADPCM) 1 8000 = true ∧ roundTrips (RAW + VOX_ADPCM) 1 8000 3 = true := by decide
+
+/-- old rule: on every point of the former class KF-C10-vox-odd whose handle works, the four writes of `n` frames
+    returned `n + 1` — "every write returns the requested count" failed exactly there — while the rule of the repaired
+    library returns `n`; outside the class the two rules agree.  (The rate-0 class is covered by
+    `check_iff_writable_fails` and the exhaustive grid.) -/
+theorem vox_odd_write_old_rule (f ch sr n : Int) (hi : installed f ch sr = true) :
+    (KF.voxOddOld f n → writeRetOld f ch sr n = n + 1 ∧ writeRet f ch sr n = n) ∧
+    (¬ KF.voxOddOld f n → writeRetOld f ch sr n = writeRet f ch sr n) := by
+  unfold writeRetOld writeRet KF.voxOddOld
+  constructor
+  · rintro ⟨h1, h2, h3⟩
+    simp [hi, h1, h2]; omega
+  · intro hk
+    by_cases hv : container f = RAW ∧ codec f = VOX_ADPCM
+    · have : ¬ n % 2 = 1 := fun h1 => hk ⟨hv.1, hv.2, h1⟩
+      simp [hi, hv]; omega
+    · simp [hi, hv]
+
+example : installed (RAW + VOX_ADPCM) 1 8000 = true ∧ writeRetOld (RAW + VOX_ADPCM) 1 8000 3 = 4 ∧ writeRet (RAW + VOX_ADPCM) 1 8000 3 = 3 := by decide
 
 /-! ## the enumeration lists -/
 
